@@ -1,9 +1,11 @@
 //! Conformance harness binding the TLA+ specification of indextree to the real crate.
+mod print;
 mod record;
 mod replay;
 #[cfg(feature = "it_deser")]
 mod roundtrip;
 mod sim;
+mod threads;
 mod tracked;
 
 use std::io::{BufRead, Write};
@@ -87,6 +89,8 @@ fn main() {
             std::process::exit(code);
         }
         "record" => record::run(&args),
+        "print" => print::run(&args),
+        "threads" => threads::run(&args),
         "features" => {
             let mut f = Vec::new();
             if cfg!(feature = "it_std") { f.push("std"); }
